@@ -447,6 +447,12 @@ def run_with_snapshots(spec, *, every=True, only_k=None, extra=None, **run_kwarg
         if runner is not None:
             ent["wakeups"] = [type(t[2]).__name__ for t in runner.scheduled_wakeups]
             ent["buffer"] = [type(t).__name__ for t in runner.tick_buffer]
+        try:
+            # ticks the run has accepted but its control loop has not processed: the mailbox, and a tick held by a finished pull task
+            ent["recvq"] = [type(t).__name__ for t in list(adapter._queues.receive_queue._queue)]
+        except Exception:  # noqa: BLE001
+            ent["recvq"] = []
+        ent["pulled"] = [n for (n, rid) in tr.extra.get("pulled", {}).values() if rid == adapter.run_id]
         if only_k is None or only_k == i:
             try:
                 ent["snap"] = json.loads(json.dumps(tr.handler.ctx.to_dict()))
